@@ -40,7 +40,7 @@ ASSUMPTIONS = [
 PROBES = ["q_mut_q", "q_after_append", "q_after_remove", "q_after_modify_element", "q_after_modify_row",
           "q_after_modify_column", "q_after_rename", "q_after_fillna", "q_after_reset_index", "index_query_repeat",
           "nonrange_index", "block_query_hit", "alias_retired", "nan_cell", "dup_value_hit", "new_column_added",
-          "empty_table", "from_query_holder", "slice_holder", "copy_holder", "viewer_built", "viewer_child_block", "viewer_append",
+          "empty_table", "from_query_holder", "slice_holder", "copy_holder", "viewer_built", "viewer_child_block", "viewer_append", "viewer_append_to_empty",
           "viewer_query", "viewer_query_on_child"]
 TIERS = {
     "quick": {"runs": 24000, "budget_s": 150, "chunk": 500, "selftest": 150, "per_run_timeout": 120},
@@ -299,11 +299,13 @@ VQ_KINDS = ["len", "iterate", "getitem", "contains_stmt_id", "all_stmt_ids", "bl
 
 def _gen_viewer_op(rng, k):
     r = rng.random()
-    if r < 0.2:
+    if r < 0.17:
         return {"op": "viewer_new", "h": rng.randrange(8)}
+    if r < 0.22:
+        return {"op": "viewer_new", "h": 0, "empty": True}       # the production pattern: start empty, then append views
     if r < 0.45:
         return {"op": "viewer_read_block", "v": rng.randrange(8), "b": rng.randrange(40)}
-    if r < 0.5:
+    if r < 0.57:
         return {"op": "viewer_append", "v": rng.randrange(8), "w": rng.randrange(8)}
     kind = rng.choice(VQ_KINDS)
     q = {"op": "vq", "kind": kind, "v": rng.randrange(8)}
@@ -332,6 +334,19 @@ def generate(rng, k):
     for _ in range(k["n_ops"] - 1):
         w = rng.choice(weights)
         if w == "v":
+            if rng.random() < 0.08:
+                # the production pattern with a nested view: child = read_block(last); empty viewer; empty.append_other(child);
+                # then position-based / visibility-unchecked queries on the result
+                ops.append({"op": "viewer_read_block", "v": -1, "b": rng.choice([1, 2, 5, 6, 9, 10, 13])})
+                ops.append({"op": "viewer_new", "h": 0, "empty": True})
+                ops.append({"op": "viewer_append", "v": -1, "w": -2})
+                for kind_ in rng.sample(["stmt_by_pos", "block_stmt_ids", "boundary", "getitem", "all_stmt_ids"], 3):
+                    q = _gen_viewer_op(rng, k)
+                    while q["op"] != "vq" or q["kind"] != kind_:
+                        q = _gen_viewer_op(rng, k)
+                    q["v"] = -1
+                    ops.append(q)
+                continue
             ops.append(_gen_viewer_op(rng, k))
             continue
         if w == "q":
@@ -428,12 +443,23 @@ def execute(trace):
 
     viewers = []      # dicts: v (GIRBlockViewer), rows ([dict], the snapshot it was built from), s, e (open range), src (holder)
 
+    recent = []       # viewer records in creation order; negative op addresses mean "the n-th most recent live viewer"
+
     def add_viewer(v, rows, s_, e_, src):
         rec = {"v": v, "rows": rows, "s": s_, "e": e_, "src": src}
         if len(viewers) < 4:
             viewers.append(rec)
         else:
             viewers[len(log) % 4] = rec
+        recent.append(rec)
+
+    def pick_viewer(idx):
+        if idx < 0:
+            live = [r for r in recent if any(r is x for x in viewers)]
+            if len(live) >= -idx:
+                return live[idx]
+            return viewers[0]
+        return viewers[idx % len(viewers)]
 
     def sut(f):
         """run SUT code with stdout/stderr captured; SystemExit -> Quit."""
@@ -667,6 +693,11 @@ def execute(trace):
                 else:
                     continue
             # ------------------------------------------------------------ queries
+            elif kind == "viewer_new" and op.get("empty"):
+                v = sut(lambda: _GBV())
+                add_viewer(v, [], -1, 0, None)
+                hit("viewer_built")
+                log.append([kind, 0])
             elif kind == "viewer_new":
                 h = holders[op["h"] % len(holders)]
                 rows = [dict(r) for _, r in h["model"].rows]
@@ -679,7 +710,7 @@ def execute(trace):
             elif kind in ("viewer_read_block", "viewer_append", "vq"):
                 if not viewers:
                     continue
-                w = viewers[op["v"] % len(viewers)]
+                w = pick_viewer(op["v"])
                 rows, s_, e_ = w["rows"], w["s"], w["e"]
                 ids = sorted({r["stmt_id"] for r in rows})
                 if kind == "viewer_read_block":
@@ -702,12 +733,16 @@ def execute(trace):
                         hit("viewer_child_block")
                     log.append([kind, b, exp_ok])
                 elif kind == "viewer_append":
-                    o = viewers[op["w"] % len(viewers)]
+                    o = pick_viewer(op["w"])
                     comb = rows[s_ + 1:e_] + o["rows"][o["s"] + 1:o["e"]]
                     if o is w or not comb or not gir_wellformed(comb):
                         continue
                     sut(lambda: w["v"].append_other(o["v"]))
                     w["rows"], w["s"], w["e"] = [dict(r) for r in comb], -1, len(comb)
+                    if not rows[s_ + 1:e_]:
+                        hit("viewer_append_to_empty")
+                    if w["src"] is None:
+                        w["src"] = o["src"]
                     hit("viewer_append")
                     log.append([kind, len(comb)])
                 else:
